@@ -110,7 +110,7 @@ pub struct Stats {
     pub counters: BTreeMap<String, u64>,
     pub fingerprints: HashSet<u64>,
     pub nontrivial_fingerprints: HashSet<u64>,
-    pub nontrivial_program_fp: HashSet<(usize, u64)>,
+    pub nontrivial_program_fp: HashSet<u64>,
     pub programs_used: HashSet<usize>,
     pub samples: Vec<serde_json::Value>,
 }
@@ -189,7 +189,7 @@ impl<'a> Checker<'a> {
         self.stats.fingerprints.insert(fp);
         if nontrivial(&r) {
             self.stats.nontrivial_fingerprints.insert(fp);
-            self.stats.nontrivial_program_fp.insert((self.scn.program, fp));
+            self.stats.nontrivial_program_fp.insert(simcore::rng::mix(fp, 0x9A17, self.scn.program as u64));
         }
         // reach counters
         let mut brk_err = 0;
@@ -697,6 +697,8 @@ fn c09(c: &mut Checker) {
         let mut out = vec![];
         rules::m_reports("M-reports", &exp, &r, Strict::Full, &|cl| cl == "UnknownKey", &mut out);
         rules::m_calls("M-calls", &exp, &r, false, &|s| s == CallStage::Unknown, &mut out);
+        // "is reported": the report must also be in the error the call returns
+        out.extend(conservation_rules(&r));
         let n = exp.reports.iter().filter(|e| matches!(e.class, simcore::model::ExpClass::UnknownKey { .. })).count();
         c.stats.bump("expected_unknown_key_reports", n as u64);
         c.record(out, &cfg, &r);
@@ -886,7 +888,7 @@ fn c15(c: &mut Checker) {
     if matches!(base.outcome, Outcome::Panic(_)) {
         return;
     }
-    let base_sum = rules::outcome_summary(&base, true);
+    let base_sum = (rules::outcome_summary(&base, true), rules::returned_summary(&base));
     let orders: Vec<Doc> = match count_orders(&c.scn.doc) {
         Some(n) if n <= 200 => {
             c.stats.bump("x_perm_scenarios_with_all_orders", 1);
@@ -917,18 +919,20 @@ fn c15(c: &mut Checker) {
             let mut cfg = c.cfg(Script::AllC);
             cfg.swap_remove = swap;
             let r = c.exec_doc(&d, &cfg, &|_| true);
-            let sum = rules::outcome_summary(&r, true);
+            let sum = (rules::outcome_summary(&r, true), rules::returned_summary(&r));
             if sum != base_sum {
                 let mut out = vec![];
                 out.push(Violation {
                     rule: "X-perm",
                     msg: format!(
-                        "outcome depends on member order: delivered as {} gives value {:?} reports {:?}; delivered as {} gives value {:?} reports {:?}",
+                        "outcome depends on member order: delivered as {} gives value {:?}, reports made {:?}, returned error holding {:?}; delivered as {} gives value {:?}, reports made {:?}, returned error holding {:?}",
                         c.scn.doc.render(),
-                        base_sum.0,
+                        base_sum.0 .0,
+                        base_sum.0 .1,
                         base_sum.1,
                         d.render(),
-                        sum.0,
+                        sum.0 .0,
+                        sum.0 .1,
                         sum.1
                     ),
                 });
